@@ -79,14 +79,15 @@ func (vc *VC) execCall(fr *Frame, st *State, instr ssa.Instruction, c *ssa.CallC
 		}
 	}
 	vc.safety(fr, st, "nilfunc", "function value is non-nil at call", fmt.Sprintf("(not (= %s 0))", fv), pos)
-	vc.event(fr, st, "dyncall", args)
+	vc.event(fr, st, "dyncall", args, sigTypes(c.Signature(), false)...)
 	res := vc.externalCall(fr, st, "dynamic call of "+c.Value.Name(), c.Signature(), args, c.Args)
 	vc.setResults(fr, v, res)
 }
 
 func (vc *VC) callStatic(fr *Frame, st *State, callee *ssa.Function, closure *ssa.MakeClosure, args []string, argVals []ssa.Value, pos token.Pos) []string {
 	full := callee.String()
-	vc.event(fr, st, shortFuncName(callee), args)
+	vc.atCall(fr, st, callee, args, pos)
+	vc.event(fr, st, shortFuncName(callee), args, sigTypes(callee.Signature, true)...)
 	// 1. built-in models of library functions
 	if res, ok := vc.modelCall(fr, st, callee, args, argVals, pos); ok {
 		return res
@@ -191,7 +192,7 @@ func (vc *VC) execInvoke(fr *Frame, st *State, c *ssa.CallCommon, recv string, a
 		}
 	}
 	if len(impls) == 0 {
-		vc.event(fr, st, "invoke."+c.Method.Name(), append([]string{fmt.Sprintf("(if_val %s)", recv)}, args...))
+		vc.event(fr, st, "invoke."+c.Method.Name(), append([]string{fmt.Sprintf("(if_val %s)", recv)}, args...), append([]types.Type{tInt}, sigTypes(c.Signature(), false)...)...)
 		if res, ok := vc.modelInvoke(fr, st, c, recv, args, pos); ok {
 			vc.setResults(fr, v, res)
 			return
@@ -429,6 +430,19 @@ func (vc *VC) contractCall(fr *Frame, st *State, callee *ssa.Function, cc *FuncC
 	}
 	pre := st.clone()
 	n := vc.ordinal("call/" + cc.Key)
+	samePkg := vc.fc != nil && vc.fc.Pkg == cc.Pkg
+	if samePkg {
+		for i, r := range cc.ObjInv {
+			t, err := vc.specBoolAt(cf, pre, pre, r, nil)
+			if err != nil {
+				continue
+			}
+			vc.oblige(st, "precondition", fmt.Sprintf("%s%s.%d.inv%d", fnTagDot(fr), cc.Key, n, i+1),
+				"caller (same package) establishes the callee's object invariant: "+r, t, pos)
+		}
+	} else if len(cc.ObjInv) > 0 {
+		vc.assume("object invariants of " + cc.Pkg + " types are hidden from other packages: they hold whenever control is outside that package (fields unexported; every method under contract re-establishes them)")
+	}
 	for i, r := range cc.Requires {
 		t, err := vc.specBoolAt(cf, pre, pre, r, nil)
 		if err != nil {
@@ -440,8 +454,12 @@ func (vc *VC) contractCall(fr *Frame, st *State, callee *ssa.Function, cc *FuncC
 	}
 	// frame: havoc what the callee may modify (and check it against the caller's own frame)
 	vc.frameFr, vc.framePos = fr, pos
+	if !samePkg {
+		vc.frameHidePkg = cc.Pkg
+	}
 	vc.havocModifies(cf, st, cc, pre)
 	vc.frameFr = nil
+	vc.frameHidePkg = ""
 	nres := callee.Signature.Results().Len()
 	res := make([]string, nres)
 	for i := 0; i < nres; i++ {
@@ -458,6 +476,16 @@ func (vc *VC) contractCall(fr *Frame, st *State, callee *ssa.Function, cc *FuncC
 			continue
 		}
 		vc.fact(st.pc, t)
+	}
+	if samePkg {
+		for _, e := range cc.ObjInv {
+			if t, err := vc.specBoolAt(cf, st, pre, e, nil); err == nil {
+				vc.fact(st.pc, t)
+			}
+		}
+	}
+	if fr.top && vc.inSpec == 0 {
+		vc.cover(st, fmt.Sprintf("after.%s.%d", cc.Key, n), "execution can continue after the call to "+cc.Key+" (its assumed postcondition is consistent here)", pos)
 	}
 	return res
 }
@@ -489,7 +517,11 @@ func (vc *VC) havocModifies(cf *Frame, st *State, cc *FuncContract, pre *State) 
 			keys = append(keys, k)
 		}
 		sort.Strings(keys)
+		vc.havocSV(st, "G_alloc")
 		for _, k := range keys {
+			if k == "G_alloc" {
+				continue
+			}
 			if strings.HasPrefix(k, "G_defer_") || strings.HasPrefix(k, "L|") {
 				continue
 			}
@@ -503,11 +535,11 @@ func (vc *VC) havocModifies(cf *Frame, st *State, cc *FuncContract, pre *State) 
 		}
 		return
 	}
+	// allocation clock may advance in any callee (first: havocked values are bounded by the new clock)
+	vc.havocSV(st, "G_alloc")
 	for _, m := range cc.Modifies {
 		vc.havocTarget(cf, st, pre, m)
 	}
-	// allocation clock may advance in any callee
-	vc.havocSV(st, "G_alloc")
 }
 
 func (vc *VC) havocSV(st *State, k string) {
@@ -522,6 +554,7 @@ func (vc *VC) havocSV(st *State, k string) {
 		return
 	}
 	st.vars[k] = vc.fresh(vc.svSort[k], "havoc_"+k)
+	vc.refAxiom(st.pc, k, st.vars[k], vc.allocBound(st))
 }
 
 // ------------------------------------------------------------------ mod sets
@@ -570,7 +603,11 @@ func (vc *VC) modInstr(fn *ssa.Function, in ssa.Instruction, out map[string]bool
 		if a, ok := x.(*ssa.Alloc); ok {
 			elem := a.Type().(*types.Pointer).Elem()
 			if isStructLike(elem) {
-				vc.modStruct(elem, out)
+				if a.Heap {
+					vc.modStruct(elem, out)
+				} else {
+					vc.modStructV(elem, out)
+				}
 			} else if arr, ok := elem.Underlying().(*types.Array); ok {
 				out[vc.elemSV(arr.Elem())] = true
 			} else {
@@ -592,7 +629,7 @@ func (vc *VC) modInstr(fn *ssa.Function, in ssa.Instruction, out map[string]bool
 	case *ssa.UnOp:
 		if x.Op == token.MUL && isStructLike(x.Type()) {
 			out["G_alloc"] = true
-			vc.modStruct(x.Type(), out)
+			vc.modStructV(x.Type(), out)
 		}
 	case *ssa.Defer:
 		name := "G_defer_"
@@ -616,6 +653,18 @@ func isPtrType(t types.Type) bool {
 	return ok
 }
 
+func (vc *VC) modStructV(t types.Type, out map[string]bool) {
+	s := t.Underlying().(*types.Struct)
+	for i := 0; i < s.NumFields(); i++ {
+		ft := s.Field(i).Type()
+		if isStructLike(ft) {
+			vc.modStructV(ft, out)
+			continue
+		}
+		out[vc.valSV(t, i)] = true
+	}
+}
+
 func (vc *VC) modStruct(t types.Type, out map[string]bool) {
 	s := t.Underlying().(*types.Struct)
 	for i := 0; i < s.NumFields(); i++ {
@@ -634,6 +683,14 @@ func (vc *VC) modAddr(addr ssa.Value, out map[string]bool) {
 	case *ssa.FieldAddr:
 		structT := a.X.Type().Underlying().(*types.Pointer).Elem()
 		ft := structT.Underlying().(*types.Struct).Field(a.Field).Type()
+		if isStackBase(a.X) {
+			if isStructLike(ft) {
+				vc.modStructV(ft, out)
+			} else {
+				out[vc.valSV(structT, a.Field)] = true
+			}
+			return
+		}
 		if isStructLike(ft) {
 			vc.modStruct(ft, out)
 		} else {
@@ -763,4 +820,79 @@ func (vc *VC) modExternal(c *ssa.CallCommon, out map[string]bool) {
 			}
 		}
 	}
+}
+
+
+// atCall checks the contract's "atcall <callee> <expr>" assertions in the state just before the call.
+// Inside the expression, arg0, arg1, ... name the call's arguments (arg0 is the receiver of a method).
+func (vc *VC) atCall(fr *Frame, st *State, calleeFn *ssa.Function, args []string, pos token.Pos) {
+	if vc.inSpec > 0 {
+		return
+	}
+	name := shortFuncName(calleeFn)
+	var fc *FuncContract
+	if fr.top {
+		fc = vc.fc
+	} else {
+		fc = vc.eng.contracts.lookupFn(fr.fn)
+	}
+	if fc == nil || fc.AtCall == nil {
+		return
+	}
+	exprs, ok := fc.AtCall[name]
+	if !ok {
+		return
+	}
+	nf := *fr
+	nf.specEnv = map[string]specVal{}
+	for k, v := range fr.specEnv {
+		nf.specEnv[k] = v
+	}
+	var ptypes []types.Type
+	if r := calleeFn.Signature.Recv(); r != nil {
+		ptypes = append(ptypes, r.Type())
+	}
+	for i := 0; i < calleeFn.Signature.Params().Len(); i++ {
+		ptypes = append(ptypes, calleeFn.Signature.Params().At(i).Type())
+	}
+	for i, a := range args {
+		var t types.Type = tInt
+		if i < len(ptypes) {
+			t = ptypes[i]
+		}
+		nf.specEnv[fmt.Sprintf("arg%d", i)] = specVal{term: a, typ: t}
+	}
+	n := vc.ordinal("atcall/" + name)
+	for i, e := range exprs {
+		t, err := vc.specBoolAt(&nf, st, vc.entryFor(fr), e, fr.curBlock)
+		if err != nil {
+			vc.unsupportedf("atcall %s of %s: %v", name, fc.Key, err)
+			continue
+		}
+		vc.oblige(st, "atcall", fmt.Sprintf("%s%s.%d.%d", fnTagDot(fr), name, n, i+1), "before calling "+name+": "+e, t, pos)
+		vc.fact(st.pc, t) // assert, then assume: later obligations may use it as a lemma
+	}
+}
+
+
+func isStackBase(v ssa.Value) bool {
+	switch x := v.(type) {
+	case *ssa.Alloc:
+		return !x.Heap && isStructLike(x.Type().(*types.Pointer).Elem())
+	case *ssa.FieldAddr:
+		return isStackBase(x.X)
+	}
+	return false
+}
+
+
+func sigTypes(sig *types.Signature, withRecv bool) []types.Type {
+	var out []types.Type
+	if withRecv && sig.Recv() != nil {
+		out = append(out, sig.Recv().Type())
+	}
+	for i := 0; i < sig.Params().Len(); i++ {
+		out = append(out, sig.Params().At(i).Type())
+	}
+	return out
 }
